@@ -595,8 +595,37 @@ def ceval(expr: ast.AST, env: dict):
         return True
     if isinstance(expr, ast.IfExp):
         return ceval(expr.body, env) if ceval(expr.test, env) else ceval(expr.orelse, env)
-    if isinstance(expr, ast.Call) and (dotted(expr.func) or "").split(".")[-1] in ("array_equal", "array_equiv", "allclose") and len(expr.args) >= 2:
+    if isinstance(expr, ast.Call) and (dotted(expr.func) or "").split(".")[-1] in ("array_equal", "array_equiv") and len(expr.args) >= 2:
         return ceval(expr.args[0], env) == ceval(expr.args[1], env)
+    if isinstance(expr, ast.Call) and (dotted(expr.func) or "").split(".")[-1] in ("allclose", "isclose") and len(expr.args) >= 2:
+        a, b = ceval(expr.args[0], env), ceval(expr.args[1], env)
+
+        def close(x, y):
+            if isinstance(x, tuple) and isinstance(y, tuple) and len(x) == len(y):
+                return all(close(p, q) for p, q in zip(x, y))
+            if isinstance(x, (int, float)) and isinstance(y, (int, float)):
+                return abs(x - y) <= 1e-8 + 1e-5 * abs(y)
+            return x == y
+
+        return close(a, b)
+    if isinstance(expr, ast.Subscript):
+        base = ceval(expr.value, env)
+        if isinstance(base, (list, tuple, str, bytes)) and not isinstance(expr.slice, ast.Slice):
+            return base[ceval(expr.slice, env)]
+        raise Unknown(txt)
+    if isinstance(expr, ast.Call) and isinstance(expr.func, ast.Attribute) and expr.func.attr == "from_bytes" and (dotted(expr.func.value) or "") == "int" and expr.args:
+        v = ceval(expr.args[0], env)
+        bo = next((ceval(k.value, env) for k in expr.keywords if k.arg == "byteorder"), ceval(expr.args[1], env) if len(expr.args) > 1 else "big")
+        if isinstance(v, (bytes, bytearray)):
+            return int.from_bytes(v, byteorder=bo)
+        raise Unknown(txt)
+    if isinstance(expr, ast.Call) and isinstance(expr.func, ast.Attribute) and expr.func.attr == "to_bytes" and expr.args:
+        v = ceval(expr.func.value, env)
+        n = ceval(expr.args[0], env)
+        bo = next((ceval(k.value, env) for k in expr.keywords if k.arg == "byteorder"), ceval(expr.args[1], env) if len(expr.args) > 1 else "big")
+        if isinstance(v, (bool, int)):
+            return int(v).to_bytes(n, byteorder=bo)
+        raise Unknown(txt)
     if isinstance(expr, ast.Call) and isinstance(expr.func, ast.Name) and expr.func.id in ("len", "list", "range", "set", "sorted", "tuple", "min", "max", "sum", "all", "any", "abs") and not expr.keywords:
         import builtins
 
